@@ -838,6 +838,9 @@ class Model:
         """
         tensorlib, _ = get_backend()
         pars = tensorlib.astensor(pars)
+        if not self.constraint_model.has_pdf():
+            # no constrained parameters: there are no auxiliary data
+            return tensorlib.zeros((self.batch_size, 0) if self.batch_size else (0,))
         return self.make_pdf(pars)[1].expected_data()
 
     def modifications(self, pars):
@@ -896,6 +899,14 @@ class Model:
             Tensor: The log density value
 
         """
+        if not self.constraint_model.has_pdf():
+            # no constrained parameters: the constraint term is an empty product
+            tensorlib, _ = get_backend()
+            return (
+                tensorlib.zeros((self.batch_size,))
+                if self.batch_size
+                else tensorlib.astensor(0.0)
+            )
         return self.make_pdf(pars)[1].log_prob(auxdata)
 
     def mainlogpdf(self, maindata, pars):
